@@ -494,6 +494,8 @@ def main(argv=None):
         f = fdict['failure']
         print(f"  failed clause={f['clause']} sig={f['sig']} :: {f['detail'][:600]}")
         print(f'VIOLATION property={pid} replay={pth}')
+    for bucket in list(total.failures)[4:]:
+        print(f'  (also failing, not minimised) {bucket}')
     violations = len(total.failures)
 
     wall = time.time() - t0
